@@ -246,11 +246,13 @@ def _branch(ps, cond, pol):
                     ps.env[a["decl"]["name"]] = AVal("callres", node=v.node, pol=apol)
                     ps.facts.append((v.node, apol))
                     ps.events.append(("branch", v.node, apol))
+                    _expand_helper(ps, v.node, apol)
                     continue
                 if v.kind == "notcall":
                     ps.env[a["decl"]["name"]] = AVal("const", 1 if apol else 0)
                     ps.facts.append((v.node, not apol))
                     ps.events.append(("branch", v.node, not apol))
+                    _expand_helper(ps, v.node, not apol)
                     continue
                 if v.kind == "callres":
                     continue
@@ -267,6 +269,24 @@ def _branch(ps, cond, pol):
             t = ps.env[a["path"]].truth()
             if t is not None and t != apol:
                 return False
+        # value sets of scalars that are compared with constants (shared with the switch bookkeeping): x == c / x != c
+        if a.k == "BinaryOperator" and a.get("op") in ("==", "!="):
+            for xs, cs in ((a.child(0), a.child(1)), (a.child(1), a.child(0))):
+                key = xs.strip_all_casts().get("path")
+                cv = C.const_of(cs)
+                if key and cv is not None and xs.strip_all_casts().k in ("DeclRefExpr", "MemberExpr") and \
+                        xs.strip_all_casts().get("tk") in ("int", "enum"):
+                    is_eq = (a["op"] == "==") == bool(apol)
+                    cur = ps.casevals.get(key)
+                    if is_eq:
+                        if cur is not None and cv not in cur:
+                            return False
+                        ps.casevals[key] = {cv}
+                    elif cur is not None:
+                        if cur == {cv}:
+                            return False
+                        ps.casevals[key] = cur - {cv}
+                    break
         # comparisons of a tracked constant
         if a.k == "BinaryOperator" and a.get("op") in ("==", "!=", "<", ">", "<=", ">="):
             ev = _eval(ps, a)
@@ -283,7 +303,53 @@ def _branch(ps, cond, pol):
                 continue
         ps.facts.append((atom, apol))
         ps.events.append(("branch", atom, apol))
+        if a.k == "CallExpr":
+            _expand_helper(ps, a, apol)
     return True
+
+
+_HELPER_CACHE = {}
+
+
+def _expand_helper(ps, call, pol):
+    """A decision on the result of a small static helper of the same translation unit (`if (!skipSeparator(...))`) is also
+    a decision on what the helper tested: the facts, calls and stores of the helper's paths that return this truth value
+    are appended (all of them when one such path exists, the common ones otherwise).  The helper is analysed on a copy
+    renamed into the caller's terms (facts.instantiate), so the appended facts read like the caller's own."""
+    name = call.get("callee")
+    fn = getattr(call, "fn", None)
+    if not name or fn is None or getattr(ps, "_depth", 0) >= 2:
+        return
+    g = fn.tu.functions.get(name)
+    if g is None or not g.static or g.name == fn.name or len(g.blocks) > 16 or C.loops(g):
+        return
+    key = (id(fn.tu), call.id, fn.name)
+    sums = _HELPER_CACHE.get(key)
+    if sums is None:
+        from . import facts as F_
+        try:
+            clone, byvalue = F_.instantiate(g, call, "%s::" % g.name)
+            sums = summarize(clone, limit=400)
+        except Exception:
+            sums = []
+        _HELPER_CACHE[key] = sums
+    sel = [q for q in sums if q.ret is not None and q.ret.truth() is not None and q.ret.truth() == bool(pol)]
+    unknown = [q for q in sums if q.ret is None or q.ret.truth() is None]
+    if unknown or not sel:
+        return
+    if len(sel) == 1:
+        q = sel[0]
+        ps.facts += list(q.facts)
+        ps.calls += list(q.calls)
+        ps.events += list(q.events)
+        return
+    common = None
+    for q in sel:
+        cur = {(a.src, p_ if not isinstance(p_, tuple) else str(p_)): (a, p_) for a, p_ in q.facts}
+        common = cur if common is None else {k: v for k, v in common.items() if k in cur}
+    for a, p_ in (common or {}).values():
+        ps.facts.append((a, p_))
+        ps.events.append(("branch", a, p_))
 
 
 class TooManyPaths(Exception):
